@@ -3,7 +3,8 @@
 
   tools/sensitivity.py list
   tools/sensitivity.py run <mutant> [<prop> ...]     (default: the properties listed for the mutant)
-  tools/sensitivity.py all [--jobs N]
+  tools/sensitivity.py all
+  tools/sensitivity.py corpus <mutant> [<prop> ...]  (only the saved regression programs are replayed)
 
 Mutants are either `revert:<text in the subject of a fix commit>` (the pre-fix tree for that one
 defect) or patch files under /verif/mutants/ or /verif/seeded/<id>/patch.diff.  The scratch copy is a
@@ -55,7 +56,7 @@ def remove_tree(wt):
     sh("git", "-C", "/repo", "worktree", "prune")
 
 
-def run_one(name, props=None, tier="quick"):
+def run_one(name, props=None, tier="quick", corpus_only=False):
     spec = MUTANTS[name]
     wt = make_tree(name, spec)
     scratch = "/var/tmp/vf-mut-scratch-%s-%d" % (name.replace("/", "_"), os.getpid())
@@ -63,6 +64,8 @@ def run_one(name, props=None, tier="quick"):
     try:
         for p in props or spec["props"]:
             env = dict(os.environ, VERIF_REPO=wt, VERIF_SCRATCH=scratch)
+            if corpus_only:
+                env["VF_CORPUS_ONLY"] = "1"
             t0 = time.time()
             r = subprocess.run([os.path.join(VERIF, "check"), p, "--tier", tier], capture_output=True, text=True,
                                env=env, cwd=VERIF)
@@ -88,11 +91,15 @@ def main():
     except (OSError, ValueError):
         results = {}
     names = sorted(MUTANTS) if sys.argv[1] == "all" else [sys.argv[2]]
-    props = sys.argv[3:] if sys.argv[1] == "run" and len(sys.argv) > 3 else None
+    corpus_only = sys.argv[1] == "corpus"  # replay of the saved regression programs only
+    if corpus_only:
+        results_path = os.path.join(VERIF, "mutants", "RESULTS-corpus.json")
+        results = {}
+    props = sys.argv[3:] if sys.argv[1] in ("run", "corpus") and len(sys.argv) > 3 else None
     rc = 0
     for n in names:
         try:
-            res = run_one(n, props)
+            res = run_one(n, props, corpus_only=corpus_only)
         except RuntimeError as e:
             print("%-40s ERROR %s" % (n, e))
             rc = 1
